@@ -443,4 +443,100 @@ theorem rng_reachable (ops : List Op) (nV : Nat) (sched : List Act) : Rng (run (
   · intro m q e h; simp [init] at h
   · intro t e h; simp [init] at h
 
+/-- ACCOUNTING: per map object (= cache generation) and text, every PrepareContext call is matched by an entry that
+    is still in the map or by exactly one recorded removal -/
+def Acct (s : St) : Prop :=
+  ∀ m q, prepCount s m q = removedCount s m q + (if (s.maps m q).isSome then 1 else 0)
+
+theorem acct_of_eq (s s' : St) (h : Acct s) (hl : s'.log = s.log) (hm : s'.maps = s.maps) : Acct s' := by
+  intro m q
+  have := h m q
+  simp only [prepCount, removedCount, hl, hm] at this ⊢
+  exact this
+
+theorem acct_delAt (s : St) (v q o : Nat) (h : Acct s) : Acct (delAt s v q o) := by
+  unfold delAt
+  split
+  · exact h
+  · rename_i m0 _
+    split
+    · exact h
+    · rename_i e' he'
+      intro m q'
+      have := h m q'
+      simp only [prepCount, removedCount, List.countP_cons] at this ⊢
+      by_cases hm : m = m0
+      · subst hm
+        by_cases hq : q' = q
+        · subst hq
+          simp [upd, he'] at this ⊢
+          omega
+        · simp [upd, hq, Ne.symm hq] at this ⊢
+          omega
+      · have hm' : ¬ m0 = m := fun h => hm h.symm
+        simp [upd, hm, hm'] at this ⊢
+        omega
+
+theorem acct_publish (s : St) (t m q : Nat) (tx : Bool) (h : Acct s) : Acct (publish s t m q tx) := by
+  intro m' q'
+  have := h m' q'
+  simp only [publish, setPc_log, setPc_maps, prepCount, removedCount] at this ⊢
+  by_cases hm : m' = m
+  · subst hm
+    by_cases hq : q' = q
+    · subst hq
+      cases hmq : s.maps m' q' <;> simp [upd, hmq, List.countP_cons] at this ⊢ <;> omega
+    · cases hmq : s.maps m' q <;> simp [upd, hq, Ne.symm hq, hmq, List.countP_cons] at this ⊢ <;> omega
+  · have hm' : ¬ m = m' := fun h => hm h.symm
+    cases hmq : s.maps m q <;> simp [upd, hm, hm', hmq, List.countP_cons] at this ⊢ <;> omega
+
+theorem acct_setPc (s : St) (t : Nat) (pc : Pc) (h : Acct s) : Acct (setPc s t pc) :=
+  acct_of_eq s _ h rfl rfl
+theorem acct_finish (s : St) (t : Nat) (r : Res) (h : Acct s) : Acct (finish s t r) :=
+  acct_of_eq s _ h (by simp) (by simp)
+
+theorem act_acct (s : St) (a : Act) (s' : St) (h : Acct s) (hs : act s a = some s') : Acct s' := by
+  cases a with
+  | thr t an =>
+    simp only [act] at hs
+    split at hs
+    · unfold tstep at hs
+      split at hs
+      · cases hpc : (s.threads t).pc <;> rw [hpc] at hs <;> simp only [stepReset] at hs
+        all_goals first
+          | (cases hs; done)
+          | (simp only [Option.some.injEq] at hs; subst hs; exact acct_of_eq s _ h (by simp) (by simp))
+      · cases hpc : (s.threads t).pc <;> rw [hpc] at hs <;> simp only [stepClose] at hs
+        all_goals first
+          | (cases hs; done)
+          | (simp only [Option.some.injEq] at hs; subst hs; exact acct_of_eq s _ h (by simp) (by simp))
+      · cases hpc : (s.threads t).pc <;> rw [hpc] at hs <;> simp only [stepUse] at hs
+        all_goals (repeat' split at hs)
+        all_goals first
+          | (cases hs; done)
+          | (simp only [Option.some.injEq] at hs; subst hs
+             first
+               | (refine acct_of_eq s _ h ?_ ?_ <;> (simp; done))
+               | exact acct_publish s _ _ _ _ h
+               | exact acct_setPc _ _ _ (acct_delAt _ _ _ _ h)
+               | exact acct_finish _ _ _ (acct_delAt _ _ _ _ (acct_of_eq s _ h rfl rfl)))
+    · cases hs
+  | closeE e =>
+    simp only [act] at hs
+    split at hs
+    · split at hs <;>
+      · simp only [Option.some.injEq] at hs; subst hs
+        exact acct_of_eq s _ h rfl rfl
+    · cases hs
+  | closeH hh =>
+    simp only [act] at hs
+    split at hs
+    · simp only [Option.some.injEq] at hs; subst hs
+      exact acct_of_eq s _ h rfl rfl
+    · cases hs
+
+theorem acct_reachable (ops : List Op) (nV : Nat) (sched : List Act) : Acct (run (init ops nV) sched) := by
+  apply run_inv Acct act_acct
+  intro m q; simp [init, prepCount, removedCount]
+
 end Gorm.SC
